@@ -251,3 +251,60 @@ def must_pass_or_none(ctx, rule, body, call, adt, field, what):
     ok = T.must_pass(body, 0, body.strict_ok_exits(), via)
     ctx.check(ok, rule, 'T-MUSTCALL', body.name, 'an Ok-exit is reachable without %s' % what, body.site(call.bb))
     return ok
+
+
+def enum_variant_of_operand(ctx, body, operand):
+    """resolve an operand that is (a reference to) a constant enum value to its variant path"""
+    if operand['k'] == 'const':
+        v = operand['v']
+        pb = ctx.F.bodies.get(v)
+        if pb is not None:
+            for bi, st in pb.stmts():
+                if st['rv']['k'] == 'agg' and '::' in st['rv']['adt'] and not st['rv']['ops']:
+                    return st['rv']['adt']
+        return v
+    l = operand['pl']['l']
+    seen = set()
+    while l not in seen:
+        seen.add(l)
+        defs = body.defs_of(l)
+        if len(defs) != 1 or defs[0][0] != 'stmt': return None
+        rv = defs[0][2]['rv']
+        if rv['k'] == 'agg' and not rv['ops'] and '::' in rv['adt']: return rv['adt']
+        if rv['k'] in ('use',) and rv['ops'][0]['k'] == 'const':
+            return enum_variant_of_operand(ctx, body, rv['ops'][0])
+        if rv['k'] == 'use' and rv['ops'][0]['k'] in ('copy', 'move'): l = rv['ops'][0]['pl']['l']; continue
+        if rv['k'] == 'ref': l = rv['pl']['l']; continue
+        return None
+    return None
+
+
+def enum_eq_guard(ctx, rule, body, enum_re, variant, equal_required, what, src_need=None):
+    """T-GUARD on `x == Enum::Variant` / `x != Enum::Variant` (PartialEq::eq / ne on the enum type):
+    the Ok-exits must require (x == variant) == equal_required."""
+    cands = []
+    for c in body.calls:
+        if c.item in ('eq', 'ne') and 'PartialEq' in (c.trait or '') and re.search(enum_re, c.self_ty or ''):
+            vs = [enum_variant_of_operand(ctx, body, a) for a in c.args]
+            hit = [v for v in vs if v and v.endswith('::' + variant)]
+            if not hit: continue
+            if src_need is not None:
+                others = [a for a, v in zip(c.args, vs) if not (v and v.endswith('::' + variant))]
+                if not others or not src_need(ctx.S.slice_operand(body, others[0])): continue
+            cands.append(c)
+    for c in cands:
+        pol = equal_required if c.item == 'eq' else (not equal_required)
+        for g in T.guards_from_call(body, c):
+            ctx.counters['cfg_paths'] += 1
+            if g.requires(pol) and g.dominates_ok_exits():
+                ctx.ok(rule, 'T-GUARD', body.site(c.bb), guard=what, shape=g.describe()); return c
+    if not cands:
+        ctx.bad(rule, 'T-GUARD', body.name, 'no test `%s` found' % what, body.site())
+    else:
+        ctx.bad(rule, 'T-GUARD', body.name, 'test `%s` does not guard the Ok-exits with the required polarity' % what, body.site(cands[0].bb))
+    return None
+
+
+def float_cmp_sites(body, ops=('Lt', 'Le', 'Gt', 'Ge', 'Eq', 'Ne')):
+    """(bb, stmt) of f64 comparisons"""
+    return [(bi, st) for bi, st in body.stmts() if st['rv']['k'] == 'bin' and st['rv']['op'] in ops and st['rv'].get('ty') == 'f64']
